@@ -259,6 +259,13 @@ pub struct Op {
 }
 impl Op {
     pub fn line(&self, fs: usize) -> String {
+        // write handles kept open across other calls ("handles used after their file was removed")
+        match self.name {
+            "hcreate" | "happend" => return format!("{} {} {} {}", self.name, 100 + fs, fs, enc_str(&self.path)),
+            "hwrite" => return format!("hwrite {} {}", 100 + fs, enc_bytes(self.bytes.as_ref().unwrap())),
+            "hdrop" => return format!("hdrop {}", 100 + fs),
+            _ => {}
+        }
         let mut s = format!("op {} {} {}", fs, self.name, enc_str(&self.path));
         if let Some(b) = &self.bytes {
             s.push(' ');
@@ -387,6 +394,14 @@ pub struct TreeSpec {
     pub composite_ops: bool,
     pub time_ops: bool,
     pub preds: Vec<&'static str>,
+}
+
+impl TreeSpec {
+    /// write handles kept open across other calls are generated for the properties whose
+    /// quantifier has no handle exclusion
+    pub fn stale_handles(&self) -> bool {
+        matches!(self.prop.as_str(), "C03" | "C05" | "C13")
+    }
 }
 
 const NAMED_CLASSES: [&str; 3] = ["notFound", "fileExists", "dirExists"];
@@ -546,10 +561,46 @@ pub fn run_impl(world: &mut RWorld, cfg: Cfg, ts: &TreeSpec, rng: &mut Rng, n_op
     let mut snap = parse_snap(&s0);
     let mut ops = vec![];
     let total = fixed_ops.as_ref().map(|v| v.len()).unwrap_or(n_ops);
+    let mut handle_open = false;
+    let mut handle_path = String::new();
     for i in 0..total {
         let op = match &fixed_ops {
             Some(v) => v[i].clone(),
-            None => gen_op(rng, ts, &snap, &cfg),
+            None => {
+                if ts.stale_handles() && !handle_open && rng.chance(1, 7) {
+                    // mostly on paths that can get children, so that the path can change type
+                    // and gain entries while the handle is open
+                    let p = if rng.chance(2, 3) { rng.pick(&["/a", "/c", "/a/a"][..]).to_string() } else { rng.pick(&UNIVERSE[1..]).to_string() };
+                    handle_open = true;
+                    handle_path = p.clone();
+                    Op { name: if rng.chance(1, 2) { "hcreate" } else { "happend" }, path: p, bytes: None, dest: None, time: None }
+                } else if handle_open && rng.chance(1, 2) {
+                    // operations aimed at the path of the open handle: remove it, re-create it with
+                    // the other type, put something below it
+                    let hp = handle_path.clone();
+                    let child = UNIVERSE.iter().find(|q| parent_of(q) == hp).map(|q| q.to_string());
+                    match rng.below(6) {
+                        0 | 1 => Op { name: "remove_file", path: hp, bytes: None, dest: None, time: None },
+                        2 | 3 => Op { name: "create_dir", path: hp, bytes: None, dest: None, time: None },
+                        4 => match child {
+                            Some(c) => Op { name: if rng.chance(1, 2) { "create_dir" } else { "touch" }, path: c, bytes: None, dest: None, time: None },
+                            None => Op { name: "remove_dir", path: hp, bytes: None, dest: None, time: None },
+                        },
+                        _ => {
+                            // never the root: the property sets removal of the root itself aside
+                            let par = parent_of(&hp);
+                            Op { name: "remove_dir", path: if par.is_empty() { hp } else { par }, bytes: None, dest: None, time: None }
+                        }
+                    }
+                } else if handle_open && rng.chance(1, 4) {
+                    Op { name: "hwrite", path: String::new(), bytes: Some(random_bytes(rng)), dest: None, time: None }
+                } else if handle_open && rng.chance(1, 4) {
+                    handle_open = false;
+                    Op { name: "hdrop", path: String::new(), bytes: None, dest: None, time: None }
+                } else {
+                    gen_op(rng, ts, &snap, &cfg)
+                }
+            }
         };
         let step = i + 1;
         let is_setter = op.name.starts_with("set_");
@@ -557,7 +608,10 @@ pub fn run_impl(world: &mut RWorld, cfg: Cfg, ts: &TreeSpec, rng: &mut Rng, n_op
             // metadata is read before any content (content reads perturb the access time)
             push(world, &mut lines, &mut impl_out, Line { who: Who::Both, text: format!("op {} metadata_t {}", cfg.target, enc_str(&op.path)), step, role: "tbefore" });
         }
-        push(world, &mut lines, &mut impl_out, Line { who: Who::Both, text: op.line(cfg.target), step, role: "op" });
+        let opres = push(world, &mut lines, &mut impl_out, Line { who: Who::Both, text: op.line(cfg.target), step, role: "op" });
+        if matches!(op.name, "hcreate" | "happend") && opres.as_deref() != Some("ok") {
+            handle_open = false;
+        }
         if is_setter {
             push(world, &mut lines, &mut impl_out, Line { who: Who::Both, text: format!("op {} metadata_t {}", cfg.target, enc_str(&op.path)), step, role: "tafter" });
         }
